@@ -203,6 +203,10 @@ def run_case(spec):
     sch.faults.sort(key=lambda f: f[0])
     sch.run(1200 + (150 * spec["nfaults"] if spec["nfaults"] >= 6 else 0))
     end = sch.drain(600.0, 60000, until=lambda: dp.both_connected() and all(started.values()) and (by is None or by.both_connected()))
+    if end == "steps":
+        # the step cap, not the virtual-time bound, ended the drain: no verdict on this case
+        world.finish()
+        return {"inconclusive": "step cap reached in the final drain", "violations": []}
     viol = []
 
     def wit():
